@@ -482,3 +482,144 @@ theorem parse_printLcov (rs : List (Bytes × Cov)) (h : ∀ pc ∈ rs, WriterOK 
     simp [finish]
 
 end Grcov.Lcov
+
+namespace Grcov.Lcov
+open Grcov AList Grcov.Lcov.Spec
+
+theorem nodup_foldl_set {κ α : Type} [DecidableEq κ] {β : Type} (g : List (κ × α) → β → κ × α)
+    (m : List (κ × α)) (xs : List β) (hm : NodupKeys m) :
+    NodupKeys (xs.foldl (fun m x => set m (g m x).1 (g m x).2) m) := by
+  induction xs generalizing m with
+  | nil => exact hm
+  | cons x xs ih => exact ih _ (nodupKeys_set hm _ _)
+
+theorem linesFold_nodup (m ls : List (Nat × Nat)) (hm : NodupKeys m) : NodupKeys (linesFold m ls) := by
+  unfold linesFold
+  exact nodup_foldl_set (fun m lc => (lc.1, satAdd ((get? m lc.1).getD 0) lc.2)) m ls hm
+
+theorem addBranch_nodup (m : List (Nat × List Bool)) (l no : Nat) (t : Bool) (hm : NodupKeys m) :
+    NodupKeys (addBranch m l no t) := by
+  unfold addBranch
+  split
+  · split
+    · exact nodupKeys_set hm _ _
+    · split <;> exact nodupKeys_set hm _ _
+  · exact nodupKeys_set hm _ _
+
+theorem brdaFold_nodup (m : List (Nat × List Bool)) (rs : List (Nat × Nat × Bool)) (hm : NodupKeys m) :
+    NodupKeys (brdaFold m rs) := by
+  induction rs generalizing m with
+  | nil => exact hm
+  | cons r rs ih => exact ih _ (addBranch_nodup m _ _ _ hm)
+
+theorem declFold_nodup (m fs : List (Name × Fn)) (hm : NodupKeys m) : NodupKeys (declFold m fs) := by
+  unfold declFold
+  exact nodup_foldl_set (fun _ nf => (nf.1, ⟨nf.2.start, false⟩)) m fs hm
+
+theorem execFold_nodup (m fs : List (Name × Fn)) (hm : NodupKeys m) : NodupKeys (execFold m fs) := by
+  induction fs generalizing m with
+  | nil => exact hm
+  | cons nf fs ih =>
+    have : execFold m (nf :: fs) = execFold (match get? m nf.1 with
+        | some g => set m nf.1 { g with executed := g.executed || nf.2.executed }
+        | none => m) fs := rfl
+    rw [this]
+    apply ih
+    split
+    · exact nodupKeys_set hm _ _
+    · exact hm
+
+theorem linesFold_fit (m ls : List (Nat × Nat)) (hm : ∀ kv ∈ m, kv.2 ≤ U64MAX) :
+    ∀ kv ∈ linesFold m ls, kv.2 ≤ U64MAX := by
+  induction ls generalizing m with
+  | nil => exact hm
+  | cons lc ls ih =>
+    have : linesFold m (lc :: ls) = linesFold (set m lc.1 (satAdd ((get? m lc.1).getD 0) lc.2)) ls := rfl
+    rw [this]
+    apply ih
+    intro kv hkv
+    -- an entry of `set m k v` is an old entry or the new value
+    have key : ∀ (m : List (Nat × Nat)) (k v : Nat), (∀ kv ∈ m, kv.2 ≤ U64MAX) → v ≤ U64MAX →
+        ∀ kv ∈ set m k v, kv.2 ≤ U64MAX := by
+      intro m k v hm hv
+      induction m with
+      | nil => intro kv hkv; simp [AList.set] at hkv; subst hkv; exact hv
+      | cons a m ih2 =>
+        intro kv hkv
+        unfold AList.set at hkv
+        split at hkv
+        · simp only [List.mem_cons] at hkv
+          rcases hkv with h | h
+          · subst h; exact hv
+          · exact hm kv (List.mem_cons_of_mem _ h)
+        · simp only [List.mem_cons] at hkv
+          rcases hkv with h | h
+          · subst h; exact hm _ (by simp)
+          · exact ih2 (fun kv hkv => hm kv (List.mem_cons_of_mem _ hkv)) kv h
+    exact key m _ _ hm (satAdd_le _ _) kv hkv
+
+theorem rtCov_wf (c : Cov) : (rtCov c).WF :=
+  ⟨linesFold_nodup [] c.lines (by simp [NodupKeys, keys]),
+   brdaFold_nodup [] _ (by simp [NodupKeys, keys]),
+   execFold_nodup _ _ (declFold_nodup [] _ (by simp [NodupKeys, keys])),
+   linesFold_fit [] c.lines (by simp)⟩
+
+end Grcov.Lcov
+
+namespace Grcov.Lcov
+open Grcov AList Grcov.Lcov.Spec
+
+theorem brdaFold_isSome (m : List (Nat × List Bool)) (rs : List (Nat × Nat × Bool)) (l : Nat) :
+    (get? (brdaFold m rs) l).isSome = ((get? m l).isSome || rs.any fun r => decide (r.1 = l)) := by
+  induction rs generalizing m with
+  | nil => simp [brdaFold]
+  | cons r rs ih =>
+    have : brdaFold m (r :: rs) = brdaFold (addBranch m r.1 r.2.1 r.2.2) rs := rfl
+    rw [this, ih]
+    by_cases hl : r.1 = l
+    · subst hl; simp [addBranch_isSome]
+    · simp [addBranch_other _ _ _ _ _ hl, hl]
+
+theorem slotRecords_any_line (l n : Nat) (v : List Bool) (l' : Nat) :
+    (slotRecords l n v).any (fun r => decide (r.1 = l')) = (decide (l = l') && !v.isEmpty) := by
+  induction v generalizing n with
+  | nil => simp [slotRecords]
+  | cons t v ih => by_cases h : l = l' <;> simp [slotRecords, h, ih]
+
+theorem brdaRecords_any_line (bs : List (Nat × List Bool)) (hb : NodupKeys bs)
+    (hne : ∀ lv ∈ bs, lv.2 ≠ []) (l : Nat) :
+    (brdaRecords bs).any (fun r => decide (r.1 = l)) = (get? bs l).isSome := by
+  induction bs with
+  | nil => simp [brdaRecords]
+  | cons lv bs ih =>
+    obtain ⟨l0, v⟩ := lv
+    have hb' : NodupKeys bs := by unfold NodupKeys keys at *; simp at hb; exact hb.2
+    have hv : v ≠ [] := hne (l0, v) (by simp)
+    have : brdaRecords ((l0, v) :: bs) = slotRecords l0 0 v ++ brdaRecords bs := by simp [brdaRecords]
+    rw [this, List.any_append, slotRecords_any_line, ih hb' fun x hx => hne x (List.mem_cons_of_mem _ hx)]
+    by_cases h : l0 = l
+    · subst h; cases v with
+      | nil => exact absurd rfl hv
+      | cons t v => simp
+    · simp [h]
+
+/-- for branch maps without empty vectors the re-imported map is the same map, entry for entry -/
+theorem brda_roundtrip_get? (bs : List (Nat × List Bool)) (hb : NodupKeys bs)
+    (hne : ∀ lv ∈ bs, lv.2 ≠ []) (l : Nat) :
+    get? (brdaFold [] (brdaRecords bs)) l = get? bs l := by
+  have h1 := brdaFold_isSome [] (brdaRecords bs) l
+  rw [brdaRecords_any_line bs hb hne] at h1
+  have h2 := brda_roundtrip bs hb l
+  simp only [vecAt] at h2
+  cases ha : get? (brdaFold [] (brdaRecords bs)) l with
+  | none => rw [ha] at h1; simp at h1; cases hb2 : get? bs l with
+    | none => rfl
+    | some v => rw [hb2] at h1; simp at h1
+  | some u =>
+    rw [ha] at h1 h2
+    cases hb2 : get? bs l with
+    | none => rw [hb2] at h1; simp at h1
+    | some v => rw [hb2] at h2; simp at h2; rw [h2]
+
+end Grcov.Lcov
+
